@@ -1100,8 +1100,8 @@ impl Scenario for C12 {
     }
     fn default_runs(tier: Tier) -> u64 {
         match tier {
-            Tier::Quick => 2_000_000,
-            Tier::Thorough => 400_000_000,
+            Tier::Quick => 12_000_000,
+            Tier::Thorough => 6_000_000_000,
         }
     }
     fn real_components() -> &'static [&'static str] {
@@ -1193,8 +1193,8 @@ impl Scenario for C14 {
     }
     fn default_runs(tier: Tier) -> u64 {
         match tier {
-            Tier::Quick => 1_000_000,
-            Tier::Thorough => 200_000_000,
+            Tier::Quick => 6_000_000,
+            Tier::Thorough => 3_000_000_000,
         }
     }
     fn real_components() -> &'static [&'static str] {
@@ -1290,8 +1290,8 @@ impl Scenario for C13 {
     }
     fn default_runs(tier: Tier) -> u64 {
         match tier {
-            Tier::Quick => 2_000_000,
-            Tier::Thorough => 400_000_000,
+            Tier::Quick => 8_000_000,
+            Tier::Thorough => 4_000_000_000,
         }
     }
     fn real_components() -> &'static [&'static str] {
